@@ -614,3 +614,90 @@ func lockReleaseAudit(c *Ctx, rule string, rels []string) int {
 	}
 	return n
 }
+
+// appendAliasAudit: `append(s.f, …)` whose result is kept anywhere but in s.f itself. The shared slice usually has spare
+// capacity, so the appended elements are written into the backing array every such call shares: the second call
+// overwrites what the first one put there (two routes registered on one server end up with the later route's
+// middlewares). Returns the number of appends on shared slices examined.
+func appendAliasAudit(c *Ctx, rule string, rels []string, why string) int {
+	n := 0
+	for _, rel := range rels {
+		for _, fn := range c.srcFuncs(rel) {
+			k := 0
+			eachInstr(fn, func(_ *ssa.BasicBlock, _ int, ins ssa.Instruction) {
+				call, ok := ins.(*ssa.Call)
+				if !ok || callName(call) != "builtin.append" || len(call.Call.Args) < 2 {
+					return
+				}
+				u, ok := call.Call.Args[0].(*ssa.UnOp)
+				if !ok || u.Op != token.MUL {
+					return
+				}
+				var srcField string
+				var srcGlobal *ssa.Global
+				switch a := u.X.(type) {
+				case *ssa.FieldAddr:
+					if nt, f, ok := fieldOf(a); ok {
+						srcField = nt.Obj().Name() + "." + f
+					} else {
+						return
+					}
+					// a struct that was allocated in this function and is still private is not shared
+					if al, ok := a.X.(*ssa.Alloc); ok && !al.Heap {
+						return
+					}
+				case *ssa.Global:
+					srcGlobal = a
+				default:
+					return
+				}
+				n++
+				k++
+				// every use of the result must be a store back into the same field / global
+				okAll := true
+				uses := 0
+				var visit func(v ssa.Value, d int)
+				visit = func(v ssa.Value, d int) {
+					for _, r := range refs(v) {
+						switch x := r.(type) {
+						case *ssa.DebugRef:
+						case *ssa.Store:
+							uses++
+							if x.Val != v {
+								continue
+							}
+							switch a := x.Addr.(type) {
+							case *ssa.FieldAddr:
+								if nt, f, ok := fieldOf(a); !ok || nt.Obj().Name()+"."+f != srcField {
+									okAll = false
+								}
+							case *ssa.Global:
+								if a != srcGlobal {
+									okAll = false
+								}
+							default:
+								okAll = false
+							}
+						case *ssa.Phi:
+							if d < 4 {
+								visit(x, d+1)
+							} else {
+								okAll = false
+							}
+						default:
+							uses++
+							okAll = false
+						}
+					}
+				}
+				visit(call, 0)
+				name := srcField
+				if srcGlobal != nil {
+					name = srcGlobal.Name()
+				}
+				c.ob(rule, fnKey(fn)+"#append-to-shared-"+name+"-"+itoa(k), call.Pos(), okAll, "append(…"+name+", …) keeps its result somewhere else than in "+name+": with spare capacity the appended elements land in the backing array every such call shares, and the next call overwrites them. "+why)
+			})
+		}
+	}
+	return n
+}
